@@ -70,10 +70,10 @@ def op? (s : String) : Option Op :=
   | ["kA", b] => (bool? b).map .kA
   | ["cA"] => some .cA
   | ["lb"] => some .lb
-  | ["freq", "1"] => some (.freq 0)
-  | ["freq", "2"] => some (.freq 1)
-  | ["freq", "3"] => some (.freq 2)
-  | ["freq", "4"] => some (.freq 3)
+  | ["freq", "1"] => some (.freq .a1)
+  | ["freq", "2"] => some (.freq .a2)
+  | ["freq", "3"] => some (.freq .a3)
+  | ["freq", "4"] => some (.freq .a4)
   | ["fext", b] => (bool? b).map .fext
   | ["fint", b] => (bool? b).map .fint
   | ["static"] => some .static
